@@ -158,7 +158,7 @@ def run(ctx, prop):
     def add_run(f, sched, replies, finish, why):
         rid = len(runs) + 1
         runs.append(dict(id=rid, family=f['name'], uploaders=f['uploaders'], files=f['files'], weekOf=f['weekof'], weeks=f['weeks'], maxRuns=f['maxruns'], late=f['late'],
-                         schedule=sched, replies=replies, finish=finish, seed=rng.randrange(1 << 30), extras=False, dirDate=(why.startswith('late-after') or (rid % 5 == 0)), buildVar=rid % 6, modeLocal=False))
+                         schedule=sched, replies=replies, finish=finish, seed=rng.randrange(1 << 30), extras=False, dirDate=(why.startswith('late-after') or (rid % 5 == 0)), buildVar=rid % 6, modeLocal=False, endFmt=(rid // 6) % 3, aged=False))
         runfam[rid] = (f, why)
 
     oneshot = ['OneShot(i, W) == IF W /\\ TLCGet(i) = 0 THEN TLCSet(i, 1) /\\ FALSE ELSE TRUE', 'ASSUME \\A i \\in 1..40 : TLCSet(i, 0)',
@@ -237,6 +237,21 @@ def run(ctx, prop):
             r1 = dict(r0, id=rid, modeLocal=True, extras=(nloc % 2 == 0), seed=rng.randrange(1 << 30))
             runs.append(r1)
             runfam[rid] = (runfam[r0['id']][0], 'modelocal')
+
+    # the same two weeks later, with the reports already made by an earlier run that could not deliver them
+    # (reports older than 21 days must still be delivered exactly once; not part of the protocol model)
+    nag = {}
+    for r0 in list(runs):
+        why0 = runfam[r0['id']][1]
+        fam0 = runfam[r0['id']][0]['name']
+        if (why0.startswith('W_') or why0 in ('random', 'rr', 'seq')) and not r0['extras'] and not r0['modeLocal'] and nag.get(fam0, 0) < ctx.pick(50, 250):
+            nag[fam0] = nag.get(fam0, 0) + 1
+            rid = len(runs) + 1
+            r1 = dict(r0, id=rid, aged=True, seed=rng.randrange(1 << 30))
+            if why0.startswith('W_') and r1['finish'] == 'stick':
+                r1['finish'] = 'rr'
+            runs.append(r1)
+            runfam[rid] = (runfam[r0['id']][0], 'aged:' + why0)
 
     if ctx.replay:
         det = json.load(open(ctx.replay))['detail']
@@ -328,7 +343,7 @@ def run(ctx, prop):
     accepted, diverged = 0, []
     byfam = {}
     for k in sorted(obs):
-        if not runs[k - 1]['extras'] and not runs[k - 1].get('modeLocal'):
+        if not runs[k - 1]['extras'] and not runs[k - 1].get('modeLocal') and not runs[k - 1].get('aged'):
             byfam.setdefault(runfam[k][0]['name'], []).append(k)
     for f in fams:
         remaining = list(byfam.get(f['name'], []))
